@@ -56,7 +56,7 @@ func (callEngine) Meta(prop, tier string) meta {
 			Exhaustive: "all single cut points for seq 2..6 and all cut pairs for seq 4..5, per operator kind and 6 drawn configurations"}
 	}
 	return meta{Level: "exploration",
-		Rule: "case = world (1-2 shared Models, 2-16 tasks with own input tensors, <= 4 calls each incl. invalid inputs, injected operator errors/panics, concurrent loads) + a schedule = explicit list of (task, k-th yield) -> next task over the instrumented copy of gonnx (a yield before every statement; map iteration order drawn from the seed). Policies: enumerated single preemption P(δ) for two callers on every operator template and small sample model, PCT(d<=5), random walk (p=1/2..1/1024), lockstep, serial. Oracle: every call's outcome kind and outputs equal, bit for bit, the same call alone on a fresh Model; concurrently loaded models have a quiet load's weights. non-trivial = at least one preemption taken while another task is inside Run on the same Model; distinct = hash of (world, schedule); distinct_interleavings = distinct schedule hashes.",
+		Rule: "case = world (1-2 shared Models, 2-16 tasks with own input tensors, <= 4 calls each incl. invalid inputs, injected operator errors/panics, concurrent loads) + a schedule = explicit list of (task, k-th yield) -> next task over the instrumented copy of gonnx (a yield before every statement; map iteration order drawn from the seed). Policies: enumerated single preemption P(δ) for two callers on every operator template and small sample model, PCT(d<=5), random walk (p=1/2..1/1024), lockstep, serial. Oracle: every call's outcome kind and outputs equal, bit for bit, the same call alone on a fresh Model; concurrently loaded models have a quiet load's weights. non-trivial = two tasks were inside Run on the same Model at the same simulated time (a Run entered while another task is parked inside one, or a preemption taken then); distinct = hash of (world, schedule); distinct_interleavings = distinct schedule hashes.",
 		Assumptions: []string{"interleavings are explored at statement granularity of gonnx and of six files of gorgonia.org/tensor (ap.go, dense.go, dense_matop.go, dense_linalg.go, defaultengine_linalg.go, api_matop.go: tensor headers, views, transposition, linear-algebra front end); all other dependency code (element loops, gonum, protobuf, gorgonia's pools) runs atomically between two yields", "critical sections (Lock..Unlock, sync.Once.Do) and functions using go/channels/select/WaitGroup/Cond are atomic to the simulated scheduler (fewer interleavings, never an impossible one)", "1 world in 200 is judged against references computed in brand-new OS processes, the others against a fresh Model in the same process", "auxiliary race tier (outside the deterministic family, probabilistic detection, no false positives): the same seeded worlds run with free-running goroutines in a -race build; any race report with a gonnx frame, or any result differing from the run-alone reference, is reported; its replay re-runs the world up to 80 times"},
 		Extra: map[string]interface{}{"race_tier_note": "probes race_tier_worlds / race_tier_calls / race_detector_reports count the auxiliary -race tier; everything else in this file is the deterministic simulation"},
 		Real:        append(real, "instrumented copy of the four gonnx packages and of six files of gorgonia.org/tensor v0.9.24 (yield points are calls into a hook, no semantic change)"), Stub: append(stub, "the scheduler (baton passing between real goroutines)"),
